@@ -659,14 +659,19 @@ def do_mapping(molecule, mappings, to_ff, attribute_keep=(), attribute_must=(), 
                 if attr in attribute_keep or attr not in graph_out.nodes[out_idx]:
                     graph_out.nodes[out_idx].update(new_attrs)
                 if attr in attribute_stash:
-                    graph_out.nodes[out_idx]["_old_"+attr] = val
+                    # An attribute that was stashed before keeps its first value
+                    graph_out.nodes[out_idx]["_old_"+attr] = molecule.nodes[ref_idx].get("_old_"+attr, val)
         else:
             attrs = defaultdict(list)
+            stashed = defaultdict(list)
             for mol_idx in mol_idxs:
                 new_attrs = attrs_from_node(molecule.nodes[mol_idx],
                                             attribute_keep+attribute_must+attribute_stash)
                 for attr, val in new_attrs.items():
                     attrs[attr].append(val)
+                    if attr in attribute_stash:
+                        # An attribute that was stashed before keeps its first value
+                        stashed[attr].append(molecule.nodes[mol_idx].get("_old_"+attr, val))
             attrs_not_sane = []
             for attr, vals in attrs.items():
                 if attr in attribute_keep or attr not in graph_out.nodes[out_idx]:
@@ -677,7 +682,7 @@ def do_mapping(molecule, mappings, to_ff, attribute_keep=(), attribute_must=(), 
                         graph_out.nodes[out_idx][attr] = None
                 if attr in attribute_stash:
                     if vals:
-                        graph_out.nodes[out_idx]["_old_"+attr] = vals[0]
+                        graph_out.nodes[out_idx]["_old_"+attr] = stashed[attr][0]
                     else:
                         # No nodes hat the attribute.
                         graph_out.nodes[out_idx]["_old_"+attr] = None
